@@ -1,6 +1,6 @@
 (* C07 — Chunk store round trip and chunk addressing.  Only statements here. *)
 From Coq Require Import ZArith List Bool.
-From KV Require Import Base.Sx Gen.Generated Model.Chunks Model.ChunksMulti Proofs.ChunksP Proofs.ChunksRtP Proofs.ChunksPruneP Proofs.ChunksPrunedReadP Proofs.ChunksTopP Proofs.ChunksGenP Proofs.ChunksMultiP.
+From KV Require Import Base.Sx Gen.Generated Model.Chunks Model.ChunksMulti Proofs.ChunksP Proofs.ChunksRtP Proofs.ChunksPruneP Proofs.ChunksPrunedReadP Proofs.ChunksTopP Proofs.ChunksGenP Proofs.ChunksMultiP Model.ChunksGenPy Proofs.ChunksGenPyP Proofs.ChunksLinkP Proofs.ChunksHistP.
 Import ListNotations.
 Open Scope Z_scope.
 
@@ -196,7 +196,8 @@ Proof. vm_compute. reflexivity. Qed.
 (* ---- pruned read: get_dask_array(..., index = unit-step slices) ---- *)
 
 (* FULL statement wanted: for every index, requested chunks = stored chunks overlapping the selection.
-   It fails for EMPTY selections (see C07_pruned_read_empty_refuted, findings C07-F2/F3), so the guard
+   The equality of the request SET fails for EMPTY selections (see C07_pruned_requests_empty_refuted, finding C07-F3;
+   data and boundaries hold for every selection: C07_pruned_read_data), so the guard
    "every normalised slice is non-empty" is spelled out: then the chunks requested (after pruning, dask culling and
    offset shifting) are exactly the blocks of the ORIGINAL chunking that overlap the selection, in order, with
    unchanged boundaries. *)
@@ -238,11 +239,34 @@ Theorem C07_prune_axis_keeps_boundaries : forall cs s e,
 Proof. exact prune_axis_requests. Qed.
 Print Assumptions C07_prune_axis_keeps_boundaries.
 
-(* the empty selection 2:2 on chunks (2,2,2): a zero-size chunk (2,2) that is no block of the chunking is requested,
-   its name collides with the stored chunk (2,4) and the read fails with BadChunk instead of returning [] *)
-Example C07_pruned_read_empty_refuted :
+(* FULL strength for the DATA and the BOUNDARIES, for EVERY unit-step index -- empty selections included (possible since
+   _prune_chunks always retains a chunk: katdal fix d72167c of finding C07-F2, which the model now follows):
+   the read returns exactly array[index], and every chunk requested is a block of the stored chunking (no chunk
+   boundary is altered), for every element type, prior store content, chunking with non-empty positive axes. *)
+Theorem C07_pruned_read_data : forall (A : Type) (d : A) (miss : option A) (st : store A) (arr : str) (dt : Z)
+    (f : list Z -> A) (chunks : list (list Z)) (index : list (option Z * option Z)),
+  Forall (fun cs => cs <> [] /\ Forall (fun c => 0 < c) cs) chunks ->
+  let r := get_array_index d miss (fst (put_array st arr dt f chunks [])) arr dt chunks index in
+  snd r = Ok (map f (spec_index_points chunks index))
+  /\ forall b, In b (fst r) -> In b (blocks chunks).
+Proof. exact pruned_read_all_top. Qed.
+Print Assumptions C07_pruned_read_data.
+
+(* ANY selection on one axis: the pruned chunking is a non-empty run of consecutive chunks of the original one and the
+   slice is shifted by exactly the total size of the chunks dropped in front *)
+Theorem C07_prune_axis_structure : forall cs s e, cs <> [] ->
+  exists pre cs' post,
+    cs = pre ++ cs' ++ post /\ cs' <> [] /\
+    prune_axis cs (s, e) = (cs', (s - sumZ pre, e - sumZ pre), sumZ pre).
+Proof. exact prune_axis_struct. Qed.
+Print Assumptions C07_prune_axis_structure.
+
+(* what remains `_partial` (finding C07-F3): the empty selection 2:2 on chunks (2,2,2) returns [] as it must, but the
+   real chunk (2,4) is still requested although no chunk overlaps the selection (dask takes block 0 of the pruned
+   chunking).  Before d72167c the request was the phantom zero-size chunk (2,2) and the read failed with BadChunk. *)
+Example C07_pruned_requests_empty_refuted :
   let st := fst (put_array [] [120] 7 (fun p => nth 0 p 0) [[2;2;2]] []) in
-  get_array_index (-1) None st [120] 7 [[2;2;2]] [(Some 2, Some 2)] = ([[(2, 2)]], Err EBadChunk)
+  get_array_index (-1) None st [120] 7 [[2;2;2]] [(Some 2, Some 2)] = ([[(2, 4)]], Ok [])
   /\ spec_requested [[2;2;2]] [(Some 2, Some 2)] = []
   /\ spec_index_points [[2;2;2]] [(Some 2, Some 2)] = [].
 Proof. vm_compute. auto. Qed.
@@ -298,3 +322,188 @@ Example C07_generate_chunks_examples :
      = [repeat 1 10; repeat 819 10 ++ [2]; [144]]
   /\ generate_chunks [10; 7] 13 2 [0%nat; 1%nat] true [(0%nat, 5)] = [repeat 1 10; [4; 3]].
 Proof. vm_compute. auto. Qed.
+
+(* ---- generate_chunks at the level of its PUBLIC arguments ---- *)
+(* gen_chunks_py (Model/ChunksGenPy.v) follows the source statement by statement: defaults of dims_to_split and
+   max_dim_elements, normalisation of negative (NumPy-style) axis numbers in dims_to_split and in the keys of
+   max_dim_elements (strictest limit wins), IndexError where an entry that names no axis is actually used, the break
+   of the split loop.  The axis normalisation, the merge of limits, the three comparison operators and the two
+   rounding directions are the definitions cs_gc_* re-translated from the source at every run.
+   Domain of the theorems (gc_domain_py): shape entries > 0, max_chunk_size / itemsize = mn / md > 0, limits > 0;
+   dims_to_split and the keys of max_dim_elements are ARBITRARY integers (any order, repetitions, several spellings). *)
+
+(* Whenever generate_chunks returns, the result is the greedy split on the axes nominated by dims_to_split read the
+   NumPy way (entries that name no axis nominate nothing) with the limits merged per axis. *)
+Theorem C07_generate_chunks_py_refines : forall shape mn md dims pow2 mde out,
+  gen_chunks_py shape mn md dims pow2 mde = Ok out ->
+  out = generate_chunks shape mn md (effective_dims (List.length shape) dims) pow2 (limits_of shape mde).
+Proof. exact gen_py_refines. Qed.
+Print Assumptions C07_generate_chunks_py_refines.
+
+(* ... and satisfies every clause of the property: exact tiling; every limit whose key names a nominated axis is
+   respected, however the axis is spelled in either argument; all but the last chunk per axis are powers of two if
+   requested; the size budget is met or every nominated axis has chunk size 1; no other axis is split. *)
+Theorem C07_generate_chunks_py_ok : forall shape mn md dims pow2 mde out,
+  gc_domain_py shape mn md mde = true ->
+  gen_chunks_py shape mn md dims pow2 mde = Ok out ->
+  chunks_ok_py shape mn md dims pow2 mde out = true.
+Proof. exact py_chunks_ok. Qed.
+Print Assumptions C07_generate_chunks_py_ok.
+
+(* the limits clause on its own, spelled out: key and nominated entry may spell the axis differently *)
+Theorem C07_generate_chunks_py_dim_caps : forall shape mn md dims pow2 mde out,
+  gc_domain_py shape mn md mde = true ->
+  gen_chunks_py shape mn md dims pow2 mde = Ok out ->
+  caps_ok_py (List.length shape) (effective_dims (List.length shape) dims) (mde0_of mde) out = true.
+Proof. exact py_caps. Qed.
+Print Assumptions C07_generate_chunks_py_dim_caps.
+
+(* totality: if every entry of dims_to_split names an axis (-ndim .. ndim-1) the function returns; the only failure
+   there is, is the IndexError of an entry that names no axis *)
+Theorem C07_generate_chunks_py_total : forall shape mn md dims pow2 mde,
+  all_axes_valid (List.length shape) dims = true ->
+  exists out, gen_chunks_py shape mn md dims pow2 mde = Ok out.
+Proof. exact gen_py_total. Qed.
+Print Assumptions C07_generate_chunks_py_total.
+
+Theorem C07_generate_chunks_py_only_index_error : forall shape mn md dims pow2 mde e,
+  gen_chunks_py shape mn md dims pow2 mde = Err e ->
+  e = EIndex /\ all_axes_valid (List.length shape) dims = false.
+Proof. exact gen_py_err. Qed.
+Print Assumptions C07_generate_chunks_py_only_index_error.
+
+(* the result is a function of WHICH axes are nominated / limited, not of how they are spelled: normalising the
+   spelling of every entry and key changes nothing (not even whether an IndexError is raised), and two calls that
+   nominate the same axes in the same order agree *)
+Theorem C07_generate_chunks_py_spelling : forall shape mn md dims pow2 mde,
+  let n := List.length shape in
+  gen_chunks_py shape mn md (Some (norm_dims n dims)) pow2
+                (Some (map (fun kv => (cs_gc_norm_axis (Z.of_nat n) (fst kv), snd kv)) mde))
+  = gen_chunks_py shape mn md (Some dims) pow2 (Some mde).
+Proof. exact gen_py_spelling. Qed.
+Print Assumptions C07_generate_chunks_py_spelling.
+
+Theorem C07_generate_chunks_py_same_axes : forall shape mn md d1 d2 pow2 mde o1 o2,
+  effective_dims (List.length shape) d1 = effective_dims (List.length shape) d2 ->
+  gen_chunks_py shape mn md d1 pow2 mde = Ok o1 -> gen_chunks_py shape mn md d2 pow2 mde = Ok o2 -> o1 = o2.
+Proof. exact gen_py_same_axes. Qed.
+Print Assumptions C07_generate_chunks_py_same_axes.
+
+(* the defaults: None = all dimensions in order, no limits *)
+Theorem C07_generate_chunks_py_defaults : forall shape mn md pow2,
+  gen_chunks_py shape mn md None pow2 None
+  = gen_chunks_py shape mn md (Some (default_dims (List.length shape))) pow2 (Some []).
+Proof. exact gen_py_defaults. Qed.
+Print Assumptions C07_generate_chunks_py_defaults.
+
+(* non-vacuity.  (1) the input of seeded change C07-6: axis -3 nominated and limited to 3;  (2) axis 2 nominated as -1,
+   limited under key 2 (finding C07-F5: the unrepaired code ignored the limit);  (3) two spellings of one axis with
+   different limits: the strictest wins;  (4) an entry that names no axis: harmless while the budget is met before it
+   is reached (katdal's test_max_dim_elements_ignore), IndexError otherwise;  (5) the spec rejects the scheme the
+   unrepaired code returned for (2). *)
+Example C07_generate_chunks_py_examples :
+  gen_chunks_py [10; 8192; 144] 94371840 8 (Some [-3]) false (Some [(-3, 3)]) = Ok [[3; 3; 3; 1]; [8192]; [144]]
+  /\ gen_chunks_py [4; 6; 50] 60000 4 (Some [-1]) false (Some [(2, 16)]) = Ok [[4]; [6]; [16; 16; 16; 2]]
+  /\ gen_chunks_py [4; 6; 50] 6000 4 (Some [-1; 2]) false (Some [(-1, 4); (2, 8)])
+     = Ok [[4]; [6]; [4; 4; 4; 4; 4; 4; 4; 4; 4; 4; 4; 4; 2]]
+  /\ gen_chunks_py [10; 7] 13 2 (Some [0; 17]) true (Some [(0, 5)]) = Err EIndex
+  /\ gen_chunks_py [10; 7] 100 2 (Some [0; 17]) true (Some [(0, 5)]) = Ok [[4; 4; 2]; [7]]
+  /\ gen_chunks_py [10; 7] 13 2 None true (Some [(0, 5)]) = Ok [repeat 1 10; [4; 3]]
+  /\ chunks_ok_py [4; 6; 50] 60000 4 (Some [-1]) false (Some [(2, 16)]) [[4]; [6]; [50]] = false
+  /\ chunks_ok_py [4; 6; 50] 60000 4 (Some [-1]) false (Some [(2, 16)]) [[4]; [6]; [16; 16; 16; 2]] = true.
+Proof. vm_compute. repeat split; reflexivity. Qed.
+
+(* outside the domain (finding C07-F6): a NEGATIVE limit is not rejected; the scheme returned has no chunk at all on
+   that axis and does not tile the array *)
+Example C07_generate_chunks_negative_limit_refuted :
+  gen_chunks_py [4; 6; 50] 600000 4 (Some [0]) false (Some [(0, -1)]) = Ok [[]; [6]; [50]]
+  /\ tiles_ok [4; 6; 50] [[]; [6]; [50]] = false.
+Proof. vm_compute. split; reflexivity. Qed.
+
+(* ---- links between the clauses ---- *)
+
+(* a chunking scheme produced by the chunk generator round-trips: whatever generate_chunks returns (any public
+   arguments in the domain) used as the chunking of put_dask_array / get_dask_array writes every block successfully
+   and reads the array back element for element, for any offset, element type and prior store content *)
+Theorem C07_generated_chunks_round_trip : forall (A : Type) (d : A) (miss : option A) (st : store A) (arr : str) (dt : Z)
+    (f : list Z -> A) shape mn md dims pow2 mde out (off : list Z),
+  gc_domain_py shape mn md mde = true ->
+  gen_chunks_py shape mn md dims pow2 mde = Ok out ->
+  (off = [] \/ List.length off = List.length shape) ->
+  Forall (fun r => r = None) (snd (put_array st arr dt f out off)) /\
+  get_array d miss (fst (put_array st arr dt f out off)) arr dt out off = Ok (map f (enumerate shape)).
+Proof. exact generated_chunks_round_trip. Qed.
+Print Assumptions C07_generated_chunks_round_trip.
+
+(* put_dask_array's mapping of dask blocks to chunk names, for ANY (irregular) chunking: block (k1, .., kn) is stored
+   under the name printed from the start tuple (total size of the first k_i chunks of axis i), its slice on axis i
+   ends at the total size of the first k_i + 1 chunks *)
+Theorem C07_block_locations : forall chunks b, In b (blocks chunks) ->
+  Forall2 (fun cs se => exists k, (k < List.length cs)%nat /\ se = (sumZ (firstn k cs), sumZ (firstn (S k) cs))) chunks b.
+Proof. exact blocks_locations. Qed.
+Print Assumptions C07_block_locations.
+
+(* ... and that is where put_dask_array stores it: after the put EVERY dask block is held under the object key printed
+   from its location (shifted by the offset), with its own shape and elements -- any chunking in the domain, any offset,
+   any prior store content (together with C07_put_array_frame: and nothing else changes) *)
+Theorem C07_put_array_stores_blocks : forall (A : Type) (st : store A) (arr : str) (dt : Z) (f : list Z -> A)
+    (chunks : list (list Z)) (off : list Z) b,
+  Forall (fun cs => Forall (fun c => 0 < c) cs \/ cs = [0]) chunks ->
+  (off = [] \/ List.length off = List.length chunks) ->
+  In b (blocks chunks) ->
+  lookup (block_key arr off b) (fst (put_array st arr dt f chunks off)) = Some (OChunk dt (slice_shape b) (extract f b)).
+Proof. exact put_stores_top. Qed.
+Print Assumptions C07_put_array_stores_blocks.
+
+Example C07_block_locations_example :
+  blocks [[3; 1; 2]; [2; 5]]
+  = [[(0,3);(0,2)]; [(0,3);(2,7)]; [(3,4);(0,2)]; [(3,4);(2,7)]; [(4,6);(0,2)]; [(4,6);(2,7)]]
+  /\ map fst (fst (put_array [] [120] 7 (fun _ : list Z => 0) [[3; 1; 2]] [10]))
+     = map (fun s => chunk_key (chunk_name [120] [s])) [14; 13; 10].
+Proof. vm_compute. auto. Qed.
+
+(* ---- chunk by chunk, over arbitrary histories ---- *)
+
+(* Reading a chunk after ANY history of put_chunk (accepted or rejected) and mark_complete calls on a name-addressed
+   store returns the data of the LAST accepted put addressed to that chunk name (shape and dtype of the request checked
+   against it), and what the store held before if there was none: later puts to other chunk names, rejected puts and
+   completion markers never disturb a stored chunk. *)
+Theorem C07_chunk_history_read : forall (A : Type) (ops : list (@hop A)) (st : store A) arr sl dt,
+  get_chunk (run_hist st ops) arr sl dt false
+  = hist_answer dt sl (last_put arr (map fst sl) ops) (get_chunk st arr sl dt false).
+Proof. exact @hist_get. Qed.
+Print Assumptions C07_chunk_history_read.
+
+(* completion markers over histories: set by mark_complete of that very array, never by a put, never cleared *)
+Theorem C07_complete_history : forall (A : Type) (ops : list (@hop A)) (st : store A) arr,
+  is_complete (run_hist st ops) arr = marked arr ops || is_complete st arr.
+Proof. exact @hist_complete. Qed.
+Print Assumptions C07_complete_history.
+
+(* one chunk: a chunk whose shape matches its slices is accepted and reads back identical; a put changes the answer
+   for no other (array name, start tuple) *)
+Theorem C07_put_get_chunk : forall (A : Type) (st : store A) arr sl dt data,
+  exists st', put_chunk st arr sl dt false (slice_shape sl) data = Ok st'
+              /\ get_chunk st' arr sl dt false = Ok (slice_shape sl, data).
+Proof. exact @put_get_chunk. Qed.
+Print Assumptions C07_put_get_chunk.
+
+Theorem C07_put_chunk_frame : forall (A : Type) (st st' : store A) arr sl dt cshape data arr' sl' dt',
+  put_chunk st arr sl dt false cshape data = Ok st' ->
+  (arr', map fst sl') <> (arr, map fst sl) ->
+  get_chunk st' arr' sl' dt' false = get_chunk st arr' sl' dt' false.
+Proof. exact @put_chunk_frame. Qed.
+Print Assumptions C07_put_chunk_frame.
+
+(* non-vacuity: overwrite (last wins), a rejected put (shape (3) for slice 0:2) leaves the chunk alone, a marker in
+   between, another array, and a request with the same start but another stop (same name, wrong shape: BadChunk) *)
+Example C07_chunk_history_example :
+  let ops := [HPut [120] [(0, 2)] 7 [2] [1; 2]; HMark [120]; HPut [121] [(0, 2)] 7 [2] [8; 9];
+              HPut [120] [(0, 2)] 7 [3] [0; 0; 0]; HPut [120] [(0, 2)] 7 [2] [3; 4]; HPut [120] [(2, 4)] 7 [2] [5; 6]] in
+  let st := run_hist ([] : store Z) ops in
+  get_chunk st [120] [(0, 2)] 7 false = Ok ([2], [3; 4])
+  /\ get_chunk st [121] [(0, 2)] 7 false = Ok ([2], [8; 9])
+  /\ get_chunk st [120] [(0, 3)] 7 false = Err EBadChunk
+  /\ get_chunk st [120] [(4, 6)] 7 false = Err ENotFound
+  /\ is_complete st [120] = true /\ is_complete st [121] = false.
+Proof. vm_compute. repeat split; reflexivity. Qed.
